@@ -31,7 +31,7 @@ Theorem required_options_set_flags : forall p opts cfg, build p opts = Some cfg 
   (In WithTokenBindingRequired opts ->
      cf_binding_required cfg = true /\ (cf_dpop_enabled cfg = true \/ cf_tls_binding_enabled cfg = true)) /\
   (In WithOpenIDScopeRequired opts -> cf_openid_required cfg = true) /\
-  (In WithResourceIndicatorsRequired opts -> cf_resource_required cfg = true) /\
+  (forall r l, In (WithResourceIndicatorsRequired r l) opts -> cf_resource_required cfg = true /\ cf_resource_enabled cfg = true) /\
   (In WithJWTBearerGrantClientAuthnRequired opts -> cf_jwt_bearer_authn_required cfg = true) /\
   cf_profile cfg = p.
 Proof. exact all_required_flags. Qed.
@@ -105,9 +105,10 @@ Theorem openid_required_enforced_ciba : forall p opts cfg statics, build p opts 
 Proof. exact C11Proofs.openid_required_enforced_ciba. Qed.
 Print Assumptions openid_required_enforced_ciba.
 
-(* the model's requests carry no `resource` parameter: under the switch none of them is served *)
+(* under the switch an authorization request without a `resource` parameter is never served *)
 Theorem resource_required_enforced : forall p opts cfg statics, build p opts = Some cfg ->
-  forall st n r, In WithResourceIndicatorsRequired opts -> p_request_uri (ar_params r) = 0 ->
+  forall st n r res l, In (WithResourceIndicatorsRequired res l) opts -> p_request_uri (ar_params r) = 0 ->
+  p_resources (ar_params r) = [] ->
   xrefused (snd (step_g (mkWorld cfg statics) st n (OpAuthorize r))).
 Proof. exact C11Proofs.resource_required_enforced. Qed.
 Print Assumptions resource_required_enforced.
